@@ -389,3 +389,212 @@ Proof.
   rewrite firstn_all2 in * by lia. split; [|exact D].
   rewrite C, remaining_advance'. apply skipn_all.
 Qed.
+
+(* ------------------------------------------------------------------------------------------------ *)
+(* 2. prefix determinism and truncation                                                              *)
+(* ------------------------------------------------------------------------------------------------ *)
+
+(* the same reader state over the longer data d1 ++ d2 *)
+Definition lift_stream (d2 : bytes) (s : stream) : stream := {| s_data := s_data s ++ d2; s_pos := s_pos s |}.
+Definition lift (d2 : bytes) (st : rstate) : rstate :=
+  {| st_stream := lift_stream d2 (st_stream st); st_linenum := st_linenum st; st_fnl := st_fnl st |}.
+
+Lemma lift_nil : forall st, lift [] st = st.
+Proof. intros [[data p] ln fnl]. unfold lift, lift_stream. cbn. rewrite app_nil_r. reflexivity. Qed.
+
+Lemma lift_stream_wf : forall d2 s, wf_stream s -> wf_stream (lift_stream d2 s).
+Proof. intros d2 s H. unfold wf_stream, lift_stream in *. cbn. rewrite app_length. lia. Qed.
+
+Lemma remaining_lift : forall d2 s, wf_stream s -> remaining (lift_stream d2 s) = remaining s ++ d2.
+Proof.
+  intros d2 s H. unfold remaining, lift_stream, wf_stream in *. cbn [s_data s_pos].
+  rewrite skipn_app. replace (s_pos s - List.length (s_data s)) with 0 by lia. reflexivity.
+Qed.
+
+Lemma wf_pos_remaining : forall s, wf_stream s -> s_pos s + List.length (remaining s) = List.length (s_data s).
+Proof. intros s H. rewrite remaining_length. unfold wf_stream in H. lia. Qed.
+
+(* a line that ends inside the prefix is read identically *)
+Lemma read_until_abs_lift_line : forall d2 s b s',
+  wf_stream s -> read_until_abs s = (b, false, s') ->
+  read_until_abs (lift_stream d2 s) = (b, false, lift_stream d2 s') /\
+  wf_stream s' /\ s_pos s < s_pos s' /\ s_data s' = s_data s.
+Proof.
+  intros d2 s b s' Hwf H.
+  pose proof (read_until_abs_exact _ _ _ _ H) as (A & Bp & _ & _ & E).
+  pose proof (read_until_abs_shape _ _ _ _ H) as [S1 _]. destruct (S1 eq_refl) as (l & Hl & _).
+  split; [|split; [auto|split; [|exact A]]].
+  - unfold read_until_abs in H |- *. rewrite remaining_lift by assumption.
+    destruct (find_byte lf (remaining s) 0) as [i|] eqn:Ef; inversion H; subst; clear H.
+    rewrite (find_byte_app_some _ _ d2 _ _ Ef). cbn [lift_stream s_data s_pos].
+    pose proof (find_byte_bounds _ _ _ _ Ef) as Hb.
+    rewrite firstn_app. replace (i + 1 - List.length (remaining s)) with 0 by lia.
+    rewrite firstn_O, app_nil_r. reflexivity.
+  - rewrite Bp, Hl, app_length. cbn. lia.
+Qed.
+
+(* where the prefix ends before any LF, the longer stream reads beyond the prefix (or also reaches its end) *)
+Lemma read_until_abs_lift_eof : forall d2 s b s' bF eF sF',
+  wf_stream s -> read_until_abs s = (b, true, s') ->
+  read_until_abs (lift_stream d2 s) = (bF, eF, sF') ->
+  List.length (s_data s) <= s_pos sF' /\ (eF = false -> List.length (s_data s) < s_pos sF').
+Proof.
+  intros d2 s b s' bF eF sF' Hwf H HF.
+  pose proof (wf_pos_remaining _ Hwf) as Hlen.
+  unfold read_until_abs in H, HF. rewrite remaining_lift in HF by assumption.
+  destruct (find_byte lf (remaining s) 0) as [i|] eqn:Ef; [inversion H|].
+  rewrite (find_byte_app_none _ _ _ _ Ef), find_byte_shift in HF. cbn [lift_stream s_data s_pos] in HF.
+  destruct (find_byte lf d2 0) as [j|]; cbn [option_map] in HF; inversion HF; subst; clear HF; cbn [s_pos].
+  - split; [lia|intros _; lia].
+  - rewrite app_length. split; [lia|discriminate].
+Qed.
+
+Lemma next_nonblank_lift : forall d2 fT fF chunk s,
+  0 < chunk -> wf_stream s ->
+  List.length (remaining s) < fT -> List.length (remaining (lift_stream d2 s)) < fF ->
+  match next_nonblank fT chunk s with
+  | Ok (Some line, s1) =>
+      next_nonblank fF chunk (lift_stream d2 s) = Ok (Some line, lift_stream d2 s1) /\
+      wf_stream s1 /\ s_pos s < s_pos s1 /\ s_data s1 = s_data s
+  | Ok (None, s1) =>
+      forall line sF1, next_nonblank fF chunk (lift_stream d2 s) = Ok (Some line, sF1) ->
+                       List.length (s_data s) < s_pos sF1
+  | Err _ => False
+  end.
+Proof.
+  intros d2. induction fT as [|f IH]; intros fF chunk s Hc Hwf HfT HfF; [lia|].
+  destruct fF as [|f']; [lia|].
+  cbn [next_nonblank]. rewrite !read_until_abs_correct by assumption. cbn [bind].
+  destruct (read_until_abs s) as [[line eof] s1] eqn:E. destruct eof.
+  - (* the prefix ends here *)
+    intros line' sF1 HF.
+    destruct (read_until_abs (lift_stream d2 s)) as [[lineF eofF] sF'] eqn:EF.
+    destruct (read_until_abs_lift_eof _ _ _ _ _ _ _ Hwf E EF) as [H1 H2].
+    destruct eofF; [discriminate HF|]. specialize (H2 eq_refl).
+    destruct (nonempty (strip lineF)).
+    + inversion HF; subst. exact H2.
+    + pose proof (read_until_abs_exact _ _ _ _ EF) as (_ & _ & _ & _ & W).
+      apply next_nonblank_wf in HF; [|assumption|apply W; apply lift_stream_wf; assumption].
+      destruct HF as (_ & _ & HF). lia.
+  - destruct (read_until_abs_lift_line d2 _ _ _ Hwf E) as (EF & Hwf1 & Hpos & Hdata). rewrite EF.
+    destruct (nonempty (strip line)); [auto|].
+    pose proof (read_until_abs_exact _ _ _ _ E) as (_ & Bp & _ & D & _).
+    pose proof (read_until_abs_exact _ _ _ _ EF) as (_ & BpF & _ & DF & _).
+    assert (List.length (remaining s1) < f) as H1.
+    { rewrite D, app_length in HfT. lia. }
+    assert (List.length (remaining (lift_stream d2 s1)) < f') as H2.
+    { rewrite DF, app_length in HfF. cbn [lift_stream s_pos] in *. lia. }
+    specialize (IH f' chunk s1 Hc Hwf1 H1 H2).
+    destruct (next_nonblank f chunk s1) as [[[l2|] s2]|e]; [| |exact IH].
+    + destruct IH as (I1 & I2 & I3 & I4). repeat split; auto; [lia|congruence].
+    + intros line' sF1 HF. specialize (IH _ _ HF). rewrite Hdata in IH. exact IH.
+Qed.
+
+Definition lift_hdr (d2 : bytes) (h : header_result) : header_result :=
+  match h with
+  | HdrOk level name id opts line st1 => HdrOk level name id opts line (lift d2 st1)
+  | x => x
+  end.
+
+(* _read_header on the prefix alone: either it reaches the end of the prefix (HdrEof), and then over the longer data
+   a header, if any, ends strictly beyond the prefix; or it gives the same result over the longer data. *)
+Lemma read_header_lift : forall d2 chunk valid st,
+  0 < chunk -> wf_rstate st ->
+  match read_header chunk valid st with
+  | HdrEof =>
+      forall level name id opts line stF1,
+        read_header chunk valid (lift d2 st) = HdrOk level name id opts line stF1 ->
+        List.length (s_data (st_stream st)) < s_pos (st_stream stF1)
+  | HdrExc _ => False
+  | r =>
+      read_header chunk valid (lift d2 st) = lift_hdr d2 r /\
+      forall level name id opts line st1, r = HdrOk level name id opts line st1 ->
+        wf_rstate st1 /\ s_pos (st_stream st) < s_pos (st_stream st1) /\
+        s_data (st_stream st1) = s_data (st_stream st)
+  end.
+Proof.
+  intros d2 chunk valid st Hc Hwf. unfold read_header. cbn [lift st_stream st_linenum st_fnl].
+  pose proof (next_nonblank_lift d2 (S (List.length (remaining (st_stream st))))
+                (S (List.length (remaining (lift_stream d2 (st_stream st))))) chunk (st_stream st) Hc Hwf
+                (Nat.lt_succ_diag_r _) (Nat.lt_succ_diag_r _)) as H.
+  destruct (next_nonblank _ chunk (st_stream st)) as [[[hdr|] s1]|e]; [| |exact H].
+  - destruct H as (HF & Hwf1 & Hpos & Hdata). rewrite HF.
+    destruct (negb _).
+    + split; [reflexivity|discriminate].
+    + destruct (parse_header _ _).
+      * split; [reflexivity|]. intros ? ? ? ? ? ? Q. inversion Q; subst. cbn [st_stream]. auto.
+      * split; [reflexivity|discriminate].
+  - intros level name id opts line stF1 HF.
+    destruct (next_nonblank _ chunk (lift_stream d2 (st_stream st))) as [[[hdrF|] sF1]|e] eqn:EF; try discriminate HF.
+    specialize (H _ _ eq_refl).
+    destruct (negb _); [discriminate HF|]. destruct (parse_header _ _); [|discriminate HF].
+    inversion HF; subst. exact H.
+Qed.
+
+Definition lift_content (d2 : bytes) (c : content_result) : content_result :=
+  match c with COk p st => COk p (lift d2 st) | x => x end.
+
+(* _read_content whose declared bytes are all inside the prefix: identical *)
+Lemma read_content_lift : forall d2 st len enc ind le keep,
+  wf_rstate st -> take_len len <= List.length (remaining (st_stream st)) ->
+  read_content (lift d2 st) len enc ind le keep = lift_content d2 (read_content st len enc ind le keep).
+Proof.
+  intros d2 st len enc ind le keep Hwf Hlen. rewrite !read_content_factored. cbv zeta.
+  cbn [lift st_stream st_linenum st_fnl]. rewrite remaining_lift by exact Hwf.
+  rewrite firstn_app. replace (take_len len - List.length (remaining (st_stream st))) with 0 by lia.
+  rewrite firstn_O, app_nil_r.
+  destruct (content_decode _ enc ind le keep); reflexivity.
+Qed.
+
+Definition lift_step (d2 : bytes) (r : step_result) : step_result :=
+  match r with SYield r st v e p => SYield r (lift d2 st) v e p | x => x end.
+
+(* One iteration on the prefix alone against the same iteration over the longer data: three cases. *)
+Lemma iter_step_lift : forall d2 orc chunk st valid encs prev,
+  0 < chunk -> wf_rstate st ->
+  (* A: identical outcome *)
+  iter_step orc chunk (lift d2 st) valid encs prev = lift_step d2 (iter_step orc chunk st valid encs prev) \/
+  (* B: the prefix ends before a complete header line *)
+  read_header chunk valid st = HdrEof \/
+  (* C: short read: a content header read identically, declaring more bytes than the prefix still has *)
+  (exists level name id opts line st1 n,
+     read_header chunk valid st = HdrOk level name id opts line st1 /\
+     read_header chunk valid (lift d2 st) = HdrOk level name id opts line (lift d2 st1) /\
+     wf_rstate st1 /\ is_content id = true /\ opt_get "length" opts = Some (VInt n) /\
+     List.length (remaining (st_stream st1)) < take_len n).
+Proof.
+  intros d2 orc chunk st valid encs prev Hc Hwf.
+  pose proof (read_header_lift d2 chunk valid st Hc Hwf) as H.
+  destruct (read_header chunk valid st) as [|level name id opts line st1|l c|e] eqn:Hh.
+  - right; left; reflexivity.
+  - destruct H as (HF & Hwf1). destruct (Hwf1 _ _ _ _ _ _ eq_refl) as (W & _ & _). clear Hwf1. cbn [lift_hdr] in HF.
+    destruct (is_content id) eqn:Hcont.
+    + destruct (opt_get "length" opts) as [[n|s]|] eqn:Hl.
+      * destruct (le_lt_dec (take_len n) (List.length (remaining (st_stream st1)))) as [Hle|Hlt].
+        -- left. unfold iter_step. rewrite Hh, HF. cbv beta zeta. rewrite Hcont, Hl.
+           rewrite !(read_content_lift d2 st1 n) by assumption.
+           repeat match goal with
+                  | |- context [read_content ?a ?b ?c ?d ?e ?f] =>
+                      destruct (read_content a b c d e f); cbn [lift_content]
+                  | |- context [match ?x with _ => _ end] =>
+                      match x with
+                      | context [match _ with _ => _ end] => fail 1
+                      | _ => destruct x eqn:?
+                      end
+                  end; reflexivity.
+        -- right; right. exists level, name, id, opts, line, st1, n. auto 10.
+      * left. unfold iter_step. rewrite Hh, HF. cbv beta zeta. rewrite Hcont, Hl.
+        destruct (top encs); reflexivity.
+      * left. unfold iter_step. rewrite Hh, HF. cbv beta zeta. rewrite Hcont, Hl.
+        destruct (top encs); reflexivity.
+    + left. unfold iter_step. rewrite Hh, HF. cbv beta zeta. rewrite Hcont.
+      repeat match goal with
+             | |- context [match ?x with _ => _ end] =>
+                 match x with
+                 | context [match _ with _ => _ end] => fail 1
+                 | _ => destruct x eqn:?
+                 end
+             end; reflexivity.
+  - destruct H as (HF & _). left. unfold iter_step. rewrite Hh, HF. reflexivity.
+  - destruct H.
+Qed.
